@@ -178,6 +178,7 @@ def run(ctx):
     _ci.template_hooks_clause(ctx, res, 'C05', 'C05.l', 'Recording', floor=2)
     _ci.import_clauses(ctx, res, 'C12', ['C12.a', 'C12.c', 'C12.d', 'C12.e', 'C12.f'], 'C05', 'C05.k', 'R-ORDER',
                        'through the asynchronous cassette a recording is stored whole: every buffered write applied once, in order, before its save', floor=4)
+    _ci.import_clauses(ctx, res, 'C15', ['C15.e'], 'C05', 'C05.m', 'R-ORDER', 'S3: the object that makes a recording discoverable is written after the object that makes it fetchable', floor=2)
     _ci.import_clauses(ctx, res, 'C10', ['C10.d'], 'C05', 'C05.i', 'R-AGREE', 'a save that fails leaves nothing behind that lookups can find', floor=1)
     # ---- C05.h the ordinal counter is fresh whenever the scope is left (also after a discard): otherwise the next recording's
     # outputs are stored from #2 on and a complete, unflagged recording cannot be replayed (missing key #1)
